@@ -24,7 +24,7 @@ K = (
 )
 
 
-SEG = [(32, 126), (9, 10), (8232, 8233)]  # printable ASCII / TAB,LF / LINE+PARAGRAPH SEPARATOR
+SEG = [(32, 126), (9, 10), (8232, 8233), (8191, 8203), (159, 161), (12287, 12289)]  # printable ASCII / TAB,LF / LINE+PARAGRAPH SEPARATOR / Unicode spaces U+2000-200A and neighbours / NBSP and neighbours / IDEOGRAPHIC SPACE and neighbours
 
 
 def c15_shape(shape: int, rp: int, n1: int, n2: int, a0: int, a1: int, b0: int, b1: int) -> bool:
@@ -71,6 +71,20 @@ specialise(
     weight=500,
 )
 
+specialise(
+    "C15",
+    "a.shapes-unicode-space",
+    c15_shape,
+    {"shape": [3, 9, 10, 11], "rp": [0, 3, 4, 5], "n1": [1], "n2": [0]},
+    skip_if=lambda fx: fx["rp"] == 0 and fx["shape"] != 11,
+    reach_if=lambda fx: fx["rp"] == 3 and fx["shape"] == 11,
+    timeout=300,
+    kernel=K,
+    shims=("S2", "S5"),
+    symbolic="the text between / around the output elements = 1 symbolic character over a contiguous range fixed per instance: characters that Python's str.isspace() accepts but XML does not treat as white space (U+2000-U+200A, U+00A0, U+3000) and their neighbours",
+    bounds="mixed-content shapes (text+output+text, two outputs with text between, adjacent outputs, references separated by nothing but the symbolic character)",
+    weight=40,
+)
 
 
 # ---- b: whole form, the public pretty/compact writers ----------------------------------------
